@@ -56,6 +56,8 @@ type vConsts struct {
 	ints  []Term // symbolic integers for n0..
 	names []Atom
 	inames []Atom
+	wides  []Term // full-width symbolic integers for w0..
+	wnames []Atom
 }
 
 func vNewConsts(alphabet int) *vConsts {
@@ -66,6 +68,10 @@ func vNewConsts(alphabet int) *vConsts {
 	for i := 0; i < 4; i++ {
 		c.inames = append(c.inames, NewAtom("n"+string(rune('0'+i))))
 	}
+	for i := 0; i < 3; i++ {
+		c.wnames = append(c.wnames, NewAtom("w"+string(rune('0'+i))))
+	}
+	c.wides = make([]Term, 3)
 	c.atoms = make([]Term, 6)
 	c.ints = make([]Term, 4)
 	_ = alphabet
@@ -92,6 +98,14 @@ func (c *vConsts) get(a Atom, alphabet int) (Term, bool) {
 				c.ints[i] = Integer(v)
 			}
 			return c.ints[i], true
+		}
+	}
+	for i, n := range c.wnames {
+		if n == a {
+			if c.wides[i] == nil {
+				c.wides[i] = Integer(nondetInt64("w" + string(rune('0'+i)))) // any 64-bit integer
+			}
+			return c.wides[i], true
 		}
 	}
 	return nil, false
